@@ -1764,6 +1764,30 @@ class Engine:
                 ast.Eq: za == zb, ast.NotEq: za != zb}[type(op)]
 
     # ------------------------------------------------------------------ calls
+    def local_helper(self, name, cls):
+        """A helper the sidecar does not know (e.g. lines extracted into a private function by a refactoring): if it is
+        defined in the file of the function under contract - as a method of the receiver's class (or of the class the
+        function under contract belongs to) or at module level - and contains no loop, its real body is analysed in place.
+        Helpers with loops need a contract (a loop needs an invariant)."""
+        if getattr(self, '_helper_depth', 0) > 3:
+            return None
+        tree = self.src.tree
+        cands = []
+        if cls is not None:
+            own = self.c.qual.split('.')[0] if '.' in self.c.qual else None
+            for k in tree.body:
+                if isinstance(k, ast.ClassDef) and k.name in (cls, own):
+                    cands += [m for m in k.body if isinstance(m, ast.FunctionDef) and m.name == name]
+        else:
+            cands = [f for f in tree.body if isinstance(f, ast.FunctionDef) and f.name == name]
+        for node in cands:
+            if any(isinstance(x, (ast.For, ast.While, ast.AsyncFor)) for x in ast.walk(node)):
+                return None
+            if any(isinstance(x, (ast.Yield, ast.YieldFrom, ast.Await)) for x in ast.walk(node)):
+                return None
+            return node
+        return None
+
     def find_contract(self, cls, meth):
         """First registered contract of cls.meth (searching base classes); variants are chosen at the call."""
         seen = [cls]
@@ -1846,6 +1870,9 @@ class Engine:
                 return obj
             if name in self.world and callable(self.world[name]):
                 return self.call_value(self.world[name], args, kwargs, e)
+            node = self.local_helper(name, None)
+            if node is not None:
+                return self.inline(node, None, args, kwargs)
             raise Unsupported(f'{self.c.qual}: unmodelled call {ftxt}(...)')
         if isinstance(e.func, ast.Attribute) and isinstance(e.func.value, ast.Name) \
                 and self.lookup_scope(e.func.value.id) is None and e.func.value.id not in self.world \
@@ -1915,6 +1942,9 @@ class Engine:
                 hook = self.c.models.get(f'{recv.cls}.{name}')
                 if hook:
                     return hook(self, e, [recv] + args, kwargs)
+                node = self.local_helper(name, recv.cls)
+                if node is not None:
+                    return self.inline(node, None, args, kwargs, recv=recv)
                 raise Unsupported(f'{self.c.qual}: no contract for {recv.cls}.{name}')
             return self.call_contract_or_inline(cc, recv, args, kwargs)
         if name == 'bit_length' and (isinstance(recv, int) or (z3.is_expr(recv) and recv.sort() == INT)) and not args:
